@@ -188,7 +188,7 @@ impl SubCheckT for CnfCompile {
     const NAME: &'static str = "cnf";
     const RULE: &'static str = "random CNF (all edge cases) compiled by the BDD builder under a random order and either cache, by the SDD builder under a random vtree (compression on/off) and under the dtree-derived vtree, and through BottomUpPlan::from_dtree on both builders: walked truth table = the harness's CNF truth table; compile_cnf_with_assignments(cnf, m) is pointer-equal to condition_model(compile_cnf(cnf), m) and denotes the iterated cofactor. Non-trivial: >=2 clauses with >=2 literals and a non-constant result";
     fn cases(tier: Tier) -> u32 {
-        tier.pick(3000, 100_000)
+        tier.pick(8000, 120_000)
     }
     fn strategy(_tier: Tier) -> BoxedStrategy<CnfCompileCase> {
         (
@@ -299,7 +299,7 @@ impl SubCheckT for Expr {
     const NAME: &'static str = "expr_plan";
     const RULE: &'static str = "random logical expressions (depth <= 5, all seven constructors) and random plans (all eight constructors incl. constants) over 1..6 variables compiled with the BDD builder (random order, either cache) and the SDD builder (random vtree, compression on/off): walked truth table = the harness's evaluator. Non-trivial: >=3 connectives and a non-constant result over >=2 variables";
     fn cases(tier: Tier) -> u32 {
-        tier.pick(3000, 100_000)
+        tier.pick(8000, 120_000)
     }
     fn strategy(_tier: Tier) -> BoxedStrategy<ExprCase> {
         (1u8..=6)
